@@ -56,7 +56,7 @@ def run(ctx):
     ctx.assumptions += ["one contract at a time in the delivery histories (competing contracts are exercised by the C08 histories, judged there for direction only)",
                         "the fake miners submit work uniformly at their nominal hashrate; share-level jitter is not generated",
                         "'enough eligible hashrate' is read as: connected hashrate at least 1.2 × the contracted rate ever since the purchase"]
-    L.regen(ctx, ["C09"])
+    L.regen(ctx, ["C09", "C11", "C07"])
     L.prove(ctx)
     if not L.build_driver(ctx):
         return
